@@ -60,6 +60,7 @@ PROPS["C09"] = {
                           "pkg/secretstore/device_keystore_wrapper.go", "pkg/secretstore/chain_key.go"],
          "timeout": {"quick": 900, "thorough": 3000}},
         {"name": "c09-datastore-faults", "pkg": SECRETSTORE, "run": "TestVerifC09Faults", "timeout": {"quick": 900, "thorough": 3000}},
+        {"name": "c09-stalled-write", "pkg": SECRETSTORE, "run": "TestVerifC09Stall", "timeout": {"quick": 900, "thorough": 3000}},
         {"name": "c09-restart-burst", "pkg": SECRETSTORE, "run": "TestVerifC09Restart", "race": True, "race_decides": True,
          "race_anchors": ["pkg/secretstore/secret_store_messages.go", "pkg/secretstore/secret_store.go",
                           "pkg/secretstore/device_keystore_wrapper.go", "pkg/secretstore/chain_key.go"],
